@@ -67,6 +67,13 @@ Theorem c19_set_channel_preserves_twins : forall ch us vs, Forall2 urn_twin us v
 Proof. exact update_preferred_channel_twin. Qed.
 Print Assumptions c19_set_channel_preserves_twins.
 
+(* set_contact_channel changes affinities and order only: every URN afterwards is one held before, as stored *)
+Theorem c19_set_channel_keeps_urns : forall ch us,
+  List.length (update_preferred_channel ch us) = List.length us /\
+  Forall (fun v => exists u, In u us /\ same_but_affinity u v) (update_preferred_channel ch us).
+Proof. exact update_preferred_channel_keeps_urns. Qed.
+Print Assumptions c19_set_channel_keeps_urns.
+
 (* full statement (FALSE, next theorem): forall us vs u, Forall2 urn_twin us vs -> Forall2 urn_twin (add_urn us u) (add_urn vs u).
    Extra hypothesis: the candidate is held by both or by neither. *)
 Theorem c19_add_urn_preserves_twins_partial : forall us vs u, Forall2 urn_twin us vs ->
